@@ -315,7 +315,7 @@ def _document_ast(document: Union[str, _ast.Document]) -> _ast.Document:
     elif isinstance(document, _ast.Document):
         return document
     else:
-        TypeError("Expected Document but got %s" % type(document))
+        raise TypeError("Expected Document but got %s" % type(document))
 
 
 def _collect_extensions(  # noqa: C901
